@@ -61,6 +61,11 @@ def native(t, ctx, obj=None):
         return ctx if obj is None else obj
     if k == "k":
         return t[1]
+    if k == "lam":
+        v = ctx
+        for n in t[1]:
+            v = v[n]
+        return v
     if k == "bin":
         l = native(t[2], ctx, obj)
         r = native(t[3], ctx, obj)
@@ -82,6 +87,8 @@ def has_expr(t):
     k = t[0]
     if k == "k":
         return False
+    if k == "lam":
+        return True
     if k == "bin":
         return has_expr(t[2]) or has_expr(t[3])
     if k in ("un", "fn"):
@@ -108,6 +115,15 @@ def real(t):
         return C.obj_
     if k == "k":
         return t[1]
+    if k == "lam":
+        names = list(t[1])
+
+        def f(ctx):             # a plain lambda with attribute access, e.g. lambda ctx: ctx._.n
+            v = ctx
+            for n in names:
+                v = getattr(v, n)
+            return v
+        return f
     if k == "bin":
         return BIN[t[1]](real(t[2]), real(t[3]))
     if k == "un":
@@ -139,6 +155,8 @@ def show(t):
         return "this." + ".".join(t[1])
     if k == "obj":
         return "obj_"
+    if k == "lam":
+        return "(lambda ctx: ctx." + ".".join(t[1]) + ")"
     if k == "k":
         return repr(t[1])
     if k == "bin":
